@@ -112,6 +112,8 @@ def to_trace(tid, par, r, fline, fkind, joined2):
 def secret_forms(s):
     q = urllib.parse.quote
     forms = {s, q(s, safe=""), q(s), urllib.parse.quote_plus(s), q(s, safe="/"), q(s, safe="=")}
+    import base64
+    forms.add(base64.b64encode(("admin:" + s).encode()).decode())       # HTTP basic authentication
     return {f.encode() for f in forms if len(f) >= 6}
 
 
